@@ -64,6 +64,13 @@ def part_rule(ctx):
         # the index vector must be arange(features)
         locals_ = {n.targets[0].id: n.value for n in ctor_nodes if isinstance(n, ast.Assign) and isinstance(n.targets[0], ast.Name)}
         srcv = locals_.get(src1)
+        if isinstance(srcv, ast.Call):
+            # the index vector behind a factory / memo helper: what the helper returns for these arguments
+            from ..helperval import value_of_call
+
+            hv = value_of_call(p, base.module, srcv, base)
+            if hv is not None:
+                srcv = hv
         if srcv is not None and norm_text(srcv) in ("torch.arange(self.features)", "torch.arange(len(mask))", "torch.arange(mask.numel())"):
             res.ok("index vector is arange(features)")
         else:
